@@ -482,6 +482,31 @@ def _dataclass_field_types(dc: Any) -> Optional[Dict[str, Any]]:
     return result
 
 
+def _make_dict_dataclass(fields: List[Tuple[Any, Any]]) -> type:
+    """The class that stands for a dictionary literal. A key that cannot be a field of a
+    dataclass (`'n-jets'`, `'class'`, `0`) is recorded as an annotation only: it can be read
+    with a subscript, and it must not cost the other fields their types."""
+    import keyword
+
+    fields = list(dict(fields).items())
+
+    def usable(k: Any) -> bool:
+        return isinstance(k, str) and k.isidentifier() and not keyword.iskeyword(k)
+
+    plain = [(k, t) for k, t in fields if usable(k)]
+    try:
+        result = make_dataclass("dict_dataclass", plain)
+        others = [(k, t) for k, t in fields if not usable(k)]
+    except (TypeError, ValueError, SyntaxError):
+        # (`__debug__` and the like)
+        result = make_dataclass("dict_dataclass", [])
+        others = fields
+    for k, t in others:
+        hash(k)
+        result.__annotations__[k] = t
+    return result
+
+
 def _is_type_of_a_literal(t: Any, or_dictionary: bool = False) -> bool:
     """The types we give to what is written out in a query - a python value (`'abc'`, `None`),
     a lambda, a dictionary: nobody declared any method for them."""
@@ -1016,7 +1041,7 @@ def remap_by_types(
                     fields = [(k, merged(h_a[k], h_b.get(k))) for k in h_a]
                     if h_a.keys() != h_b.keys() or any(t is None for _, t in fields):
                         return None
-                    return make_dataclass("dict_dataclass", fields)
+                    return _make_dict_dataclass(fields)
                 return None
 
             final_type = merged(t_true, t_false)
@@ -1089,10 +1114,10 @@ def remap_by_types(
             ]
             try:
                 # (a key written twice holds its last value)
-                dict_dataclass = make_dataclass("dict_dataclass", list(dict(fields).items()))
+                dict_dataclass = _make_dict_dataclass(fields)
             except (TypeError, ValueError, SyntaxError):
-                # Keys that can't be field names (not identifiers, keywords, `self`, etc.): this
-                # is still a fine dictionary, we just have no type information for it.
+                # Keys that are no constants python can hash: this is still a fine dictionary,
+                # we just have no type information for it.
                 return t_node
 
             self._found_types[t_node] = dict_dataclass
